@@ -306,6 +306,53 @@ func findPresence(c *chk.Ctx, f *ssa.Function, table *types.Var, at ssa.Instruct
 			}
 		}
 	})
+	// established by the one caller before it calls f (`if w.outstanding() { w.expire() }`, the
+	// test possibly in a one-line predicate): the presence holds at f's entry, provided the
+	// lock cannot be released between the test and the call
+	if len(out) == 0 && len(f.Blocks) > 0 {
+		if site, sole := c.P.SoleCaller(f); sole {
+			owner, _ := tableOwner(c, f)
+			if _, isCall := site.Instr.(*ssa.Call); isCall && owner != "" {
+				lock := ownerLock(c, owner)
+				for _, alt := range expandPredicateHelpers(c, ir.CondsAt(site.Instr.Block()), 0) {
+					for _, cd := range alt {
+						var lk *ssa.Lookup
+						var entry ssa.Value
+						if e, ok := cd.V.(*ssa.Extract); ok && e.Index == 1 && cd.Truth {
+							lk, _ = e.Tuple.(*ssa.Lookup)
+						} else if x, eq, ok := ir.NilCompare(cd.V); ok && eq != cd.Truth {
+							if l2, isLk := x.(*ssa.Lookup); isLk && !l2.CommaOk {
+								lk, entry = l2, l2
+							}
+						}
+						if lk == nil || !chk.LoadsField(lk.X, table) {
+							continue
+						}
+						released := false
+						for _, b := range site.Caller.Blocks {
+							for _, i2 := range b.Instrs {
+								if i2 != site.Instr && ir.InstrDominates(i2, site.Instr) && releases(c, i2, lock) {
+									// a release before the call: only harmless if it also precedes the test
+									if lk.Parent() == site.Caller && ir.InstrDominates(i2, lk) {
+										continue
+									}
+									for _, cd2 := range ir.CondsAt(site.Instr.Block()) {
+										if cd2.If != nil && ir.InstrDominates(cd2.If, i2) {
+											released = true
+										}
+									}
+								}
+							}
+						}
+						if released {
+							continue
+						}
+						out = append(out, presence{f.Blocks[0].Instrs[0], c.P.Canon(lk.Index), entry, false})
+					}
+				}
+			}
+		}
+	}
 	return out
 }
 
@@ -334,20 +381,23 @@ func ruleTokenWrite(c *chk.Ctx, owner string) {
 		for _, p := range pres {
 			// the Response written is the looked-up one, or was looked up again with the same key, or is a parameter tied to the key at every call site
 			respOK := false
-			switch {
-			case p.entry != nil && p.entry == s.resp:
+			if p.entry != nil && p.entry == s.resp {
 				respOK = true
-			case p.entry != nil:
+			}
+			if p.entry != nil && !respOK {
 				// a second lookup with the same key (if m[k] != nil { r := m[k] })
 				if lk2, ok := s.resp.(*ssa.Lookup); ok && chk.LoadsField(lk2.X, s.table) && ir.NormCell(lk2.Index) == p.key {
 					respOK = true
 				}
-			default:
+			}
+			// (the looked-up entry may only be tested for presence, the write going to the
+			// Response the function was given together with the key)
+			if !respOK {
 				if prm, ok := s.resp.(*ssa.Parameter); ok {
 					respOK, why = paramTiedToKey(c, f, prm, p.key)
 				}
 				// the Response and the key are the two halves of one "pending call" record
-				if !respOK && idOfResponse(c, p.key, s.resp, 0) {
+				if !respOK && (idOfResponse(c, p.key, s.resp, 0) || idOfResponse(c, p.key, c.P.Canon(s.resp), 0)) {
 					respOK = true
 				}
 				// comma-ok lookup: the written Response is the value half of that very lookup
@@ -363,7 +413,7 @@ func ruleTokenWrite(c *chk.Ctx, owner string) {
 			}
 			var del *ssa.Call
 			ir.Instrs(f, func(ins ssa.Instruction) {
-				if call, ok := isDeleteOn(ins, s.table); ok && ir.NormCell(call.Call.Args[1]) == p.key && ir.InstrDominates(call, s.send) && ir.InstrDominates(p.lookup, call) {
+				if call, ok := isDeleteOn(ins, s.table); ok && (ir.NormCell(call.Call.Args[1]) == p.key || c.P.Canon(call.Call.Args[1]) == p.key) && ir.InstrDominates(call, s.send) && (ir.InstrDominates(p.lookup, call) || p.lookup == ssa.Instruction(call)) {
 					del = call
 				}
 				// the removal through a table type's method
@@ -547,7 +597,7 @@ func ruleTokenKeyed(c *chk.Ctx, owner string) {
 		isKey := func(v ssa.Value) bool {
 			// (the key as any of the ways the presence was established sees it)
 			for _, p := range pres {
-				if v == p.key {
+				if v == p.key || c.P.Canon(v) == p.key {
 					return true
 				}
 			}
@@ -808,6 +858,18 @@ func ruleTokenRegister(c *chk.Ctx, owner string) {
 						if ir.SameValue(a, resp) {
 							watcher = g
 						}
+						// the Response handed over inside a freshly built "watch" record
+						if al, isAl := ir.NormCell(a).(*ssa.Alloc); isAl {
+							for _, ref := range *al.Referrers() {
+								if fa, isFA := ref.(*ssa.FieldAddr); isFA {
+									for _, r2 := range *fa.Referrers() {
+										if st2, isSt := r2.(*ssa.Store); isSt && st2.Addr == ssa.Value(fa) && ir.SameValue(st2.Val, resp) {
+											watcher = g
+										}
+									}
+								}
+							}
+						}
 						// the Response handed over inside a record (a "pending call" struct)
 						if rb, _, isProj := projection(resp); isProj {
 							if rb == ir.NormCell(a) || ir.SameValue(rb, a) {
@@ -867,6 +929,25 @@ func ruleRegisterAfterSend(c *chk.Ctx) {
 						if call, ok := x.(*ssa.Call); ok && (isSendInvoke(call) || nilMeansSendOK(call)) {
 							return true
 						}
+						// one error variable for "already failed" and "sending failed": it is nil only
+						// if it came from the Send (every other value that flows into it is known
+						// non-nil on its edge)
+						if phi, isPhi := x.(*ssa.Phi); isPhi {
+							sends, other := 0, false
+							for i, e := range phi.Edges {
+								if call, isCall := e.(*ssa.Call); isCall && (isSendInvoke(call) || nilMeansSendOK(call)) {
+									sends++
+									continue
+								}
+								ev := e
+								if !ir.ProvesNonNil(ir.EdgeConds(phi.Block().Preds[i], phi.Block()), func(v ssa.Value) bool { return v == ev || ir.SameValue(v, ev) }) {
+									other = true
+								}
+							}
+							if sends > 0 && !other {
+								return true
+							}
+						}
 					}
 				}
 				return false
@@ -885,7 +966,7 @@ func ruleAtomicCounter(c *chk.Ctx, owner string, counter *types.Var) {
 	for _, st := range c.P.FieldStores(counter) {
 		f := st.Parent()
 		fa := st.Addr.(*ssa.FieldAddr)
-		if _, fresh := ir.NormCell(fa.X).(*ssa.Alloc); fresh {
+		if freshOwner(c, fa.X) {
 			continue // constructor initialises the counter
 		}
 		n++
@@ -1083,6 +1164,41 @@ func ruleHooks(c *chk.Ctx) {
 						}
 						if good && n > 0 {
 							installed = true
+						}
+					}
+				}
+				// or the hook call and the slot write are governed by the same outcome of one test
+				// (the flag of this goroutine's own look-up), and under that outcome the write
+				// always happens
+				if !installed {
+					for _, cd := range ir.NormConds(ir.CondsAt(ins.Block())) {
+						for _, ss := range slotSends(c) {
+							if ss.owner != "client" || ss.fn != f {
+								continue
+							}
+							same := false
+							var iff *ssa.If
+							for _, sc := range ir.NormConds(ir.CondsAt(ss.send.Block())) {
+								if sc.V == cd.V && sc.Truth == cd.Truth && sc.If != nil {
+									same, iff = true, sc.If
+								}
+							}
+							if !same || iff == nil {
+								continue
+							}
+							succ := iff.Block().Succs[0]
+							if !cd.Truth {
+								succ = iff.Block().Succs[1]
+							}
+							if len(succ.Instrs) == 0 {
+								continue
+							}
+							isSend := func(i ssa.Instruction) bool { return i == ss.send }
+							if isSend(succ.Instrs[0]) {
+								installed = true
+							} else if ok, _ := (ir.PathQuery{Goal: isSend}).MustReach(succ.Instrs[0]); ok {
+								installed = true
+							}
 						}
 					}
 				}
